@@ -56,9 +56,15 @@ func c16ErrTerm(err error) string {
 	return "Some EOther"
 }
 
+// c16Scale: every amount of the current case is multiplied by it (1, or 2^64: balances that are exact multiples of 2^64)
+var c16Scale = big.NewInt(1)
+
+func c16Big(n int64) *big.Int { return new(big.Int).Mul(big.NewInt(n), c16Scale) }
+func c16Z(n int64) string     { return "(" + c16Big(n).String() + ")%Z" }
+
 func c16Apply(stub shim.ChaincodeStubInterface, o c16Op) error {
 	kd, a, t := c16Kinds[o.K1.K], c16Addrs[o.K1.A], c16Tokens[o.K1.T]
-	amt := big.NewInt(o.Amt)
+	amt := c16Big(o.Amt)
 	switch o.Op {
 	case "put":
 		return balance.Put(stub, kd, a, t, amt)
@@ -114,6 +120,13 @@ func init() {
 }
 
 func c16Case(c *Ctx, steps []c16Step, nAddr int) error {
+	// one case in five works in units of 2^64: every balance is an exact multiple of it
+	c16Scale = big.NewInt(1)
+	if c.Rng.Intn(5) == 0 {
+		c16Scale = new(big.Int).Lsh(big.NewInt(1), 64)
+		c.Count("case_in_units_of_2^64")
+	}
+	defer func() { c16Scale = big.NewInt(1) }()
 	w := NewWorld()
 	if _, err := w.AddToken("TT", ChanOpts{}); err != nil {
 		return err
@@ -134,15 +147,15 @@ func c16Case(c *Ctx, steps []c16Step, nAddr int) error {
 					errs = append(errs, c16ErrTerm(c16Apply(stub, o)))
 					switch o.Op {
 					case "put":
-						ops[i] = fmt.Sprintf("IPut %s (%d)%%Z", o.K1.term(), o.Amt)
+						ops[i] = fmt.Sprintf("IPut %s %s", o.K1.term(), c16Z(o.Amt))
 					case "add":
-						ops[i] = fmt.Sprintf("IAdd %s (%d)%%Z", o.K1.term(), o.Amt)
+						ops[i] = fmt.Sprintf("IAdd %s %s", o.K1.term(), c16Z(o.Amt))
 					case "sub":
-						ops[i] = fmt.Sprintf("ISub %s (%d)%%Z", o.K1.term(), o.Amt)
+						ops[i] = fmt.Sprintf("ISub %s %s", o.K1.term(), c16Z(o.Amt))
 					case "move":
 						k2 := o.K2
 						k2.T = o.K1.T
-						ops[i] = fmt.Sprintf("IMove %s %s (%d)%%Z", o.K1.term(), k2.term(), o.Amt)
+						ops[i] = fmt.Sprintf("IMove %s %s %s", o.K1.term(), k2.term(), c16Z(o.Amt))
 					}
 					c.Count("op_" + o.Op)
 				}
@@ -194,9 +207,9 @@ func c16Case(c *Ctx, steps []c16Step, nAddr int) error {
 			if st.Amt == 0 {
 				delete(ch.State, key)
 			} else {
-				ch.State[key] = big.NewInt(st.Amt).Bytes()
+				ch.State[key] = c16Big(st.Amt).Bytes()
 			}
-			hist = append(hist, fmt.Sprintf("SLegacy %s (%d)%%Z", st.Key.term(), st.Amt))
+			hist = append(hist, fmt.Sprintf("SLegacy %s %s", st.Key.term(), c16Z(st.Amt)))
 			outs = append(outs, "OUnit")
 			c.Count("legacy")
 		case "owners":
@@ -278,7 +291,7 @@ func c16Case(c *Ctx, steps []c16Step, nAddr int) error {
 
 func genC16(c *Ctx) error {
 	c.ShardSize = 40
-	c.Notes["rule"] = "histories of 10-30 steps over all 7 balance kinds (createIndex is called by the kind's name) x 4 addresses x 6 tokens (names that are prefixes of each other, the empty token, ids with an underscore whose last part is another token): transactions of 1-4 put/add/sub/move operations through the tx/batch caches or on a raw stub, committed or discarded, now and then followed in the SAME batch by a second transaction that takes everything back; optional legacy primaries written without inverse entries; createIndex via Invoke; every owners listing is followed by direct balance.Get of every address. Plus ledgers with 210-460 legacy holders of one kind (among the first ones also token-less balances), indexed and listed, one of them with 1001-1120 holders of ONE token. Non-trivial: at least one inverse entry exists at the end."
+	c.Notes["rule"] = "histories of 10-30 steps over all 7 balance kinds (createIndex is called by the kind's name) x 4 addresses x 6 tokens (names that are prefixes of each other, the empty token, ids with an underscore whose last part is another token): transactions of 1-4 put/add/sub/move operations through the tx/batch caches or on a raw stub, committed or discarded, now and then followed in the SAME batch by a second transaction that takes everything back; optional legacy primaries written without inverse entries; createIndex via Invoke; every owners listing is followed by direct balance.Get of every address. Plus ledgers with 210-460 legacy holders of one kind (among the first ones also token-less balances), indexed and listed, one of them with 1001-1120 holders of ONE token. One case in five has all its amounts multiplied by 2^64. Non-trivial: at least one inverse entry exists at the end."
 	rng := c.Rng
 	n := c.N(240, 6000)
 	for i := 0; i < n; i++ {
